@@ -431,6 +431,53 @@ theorem truncate_hfull_refuted : ¬ truncate_hfull_statement := by
       [(7, false)]).1 2).1.B 3 = none := by decide
   rw [this] at h2; cases h2
 
+/-! ### a branch-tip scan that breaks off (storage read fault) -/
+
+/-- `truncate` is `truncateOn` applied to the complete scan -/
+theorem truncateOn_scanTips (l : L) (target : Nat) (th : Hdr) (h : lookup l.B target = some th) :
+    truncateOn l target (scanTips l target th.height) = truncate l target := by
+  simp [truncateOn, truncate, scanTips, h]
+
+/-- a scan that breaks off makes the truncation fail and leaves every table as it was, wherever it breaks off -/
+theorem truncateScan_fault_noop (l : L) (target n : Nat) : truncateScan l target (some n) = (l, false) := by
+  unfold truncateScan; cases lookup l.B target <;> rfl
+
+/-- without a fault `truncateScan` is `truncate`: `truncate_inv` carries over -/
+theorem truncateScan_inv (l : L) (target : Nat) (brk : Option Nat) (I : LedgerInv l) (hon : target ∈ pathOf l l.tip) :
+    LedgerInv (truncateScan l target brk).1 := by
+  unfold truncateScan
+  cases hb : lookup l.B target with
+  | none => exact I
+  | some th =>
+    cases brk with
+    | none => exact truncate_inv l target I hon
+    | some n => exact I
+
+/-- trusting a scan that broke off — FALSE, see `truncate_partial_scan_refuted` -/
+def truncate_partial_scan_statement : Prop :=
+  ∀ (l : L) (target n : Nat), LedgerInv l → target ∈ pathOf l l.tip → LedgerInv (truncatePartial l target n).1
+
+/-- witness: main chain 0 - 1 - 2 and a side block 3 on the root: two branch tips (2 and 3) above the root. A truncation to
+the root that is told about the first tip only reports success with trunk height 0 and leaves a block of height 1 stored -/
+theorem truncate_partial_scan_refuted : ¬ truncate_partial_scan_statement := by
+  intro h
+  have I0 := genesis_inv 0 []
+  have I1 := confirm_inv _ 1 0 [] I0 (by decide) (by decide)
+  have I2 := confirm_inv _ 2 1 [] I1 (by decide) (by decide)
+  have I3 := confirm_inv _ 3 0 [] I2 (by decide) (by decide)
+  have I' := h _ 0 1 I3 (by decide)
+  have hex : ∃ b hd, lookup (truncatePartial (confirm (confirm (confirm (genesis 0 []) 1 0 []).1 2 1 []).1 3 0 []).1 0 1).1.B b
+      = some hd ∧ hd.height = 1 := by
+    first
+      | exact ⟨3, ⟨some 0, 1, false, none, []⟩, by decide, rfl⟩
+      | exact ⟨1, ⟨some 0, 1, true, some 2, []⟩, by decide, rfl⟩
+      | exact ⟨1, ⟨some 0, 1, true, none, []⟩, by decide, rfl⟩
+  obtain ⟨b, hd, hb, hh⟩ := hex
+  have := I'.height_le b hd hb
+  have ht : (truncatePartial (confirm (confirm (confirm (genesis 0 []) 1 0 []).1 2 1 []).1 3 0 []).1 0 1).1.trunkHeight = 0 := by
+    decide
+  omega
+
 /-! ### the hypotheses of `truncate_inv` and `confirm_inv` are needed -/
 
 /-- `truncate_inv` without "target on the main chain" — FALSE, see `truncate_offchain_refuted` -/
